@@ -102,6 +102,15 @@ Fixpoint pickle_dsrcs_from (j : nat) (flags : list bool) : list dsrc :=
 Definition deep_dsrcs (n : nat) : list dsrc := map DDeep (seq 0 n).
 
 (* ---- M: the implementation ---- *)
+(* what util.immutable_filter does with its argument, by the argument's flags.writeable.  Gen_c01.source_filter is the same
+   decision REGENERATED from the AST of util.immutable_filter; Properties/C01.v proves the two equal. *)
+Inductive filter_action :=
+| FCopyFreeze       (* copy, freeze the copy, return the copy *)
+| FKeep             (* return the argument as is *)
+| FFreezeInPlace    (* freeze the argument itself, return it (NOT what 0.8.8 does for writeable arguments) *)
+| FCopy.            (* return an unfrozen copy (NOT what 0.8.8 does) *)
+Definition model_filter (w : bool) : filter_action := if w then FCopyFreeze else FKeep.
+
 Definition m_src (bs : list (list Z)) (cs : list handle) (s : src)
   : res (list (list Z) * list handle * handle) :=
   match s with
@@ -112,8 +121,12 @@ Definition m_src (bs : list (list Z)) (cs : list handle) (s : src)
       | Some h =>
           match r with
           | RFilter =>
-              if h_w h then let '(bs', h') := fresh bs (h_content bs h) false in Ok (bs', cs, h')
-              else Ok (dummy bs, cs, h)
+              match model_filter (h_w h) with
+              | FCopyFreeze => let '(bs', h') := fresh bs (h_content bs h) false in Ok (bs', cs, h')
+              | FKeep => Ok (dummy bs, cs, h)
+              | FFreezeInPlace => Ok (dummy bs, upd cs k (set_w h false), set_w h false)
+              | FCopy => let '(bs', h') := fresh bs (h_content bs h) true in Ok (bs', cs, h')
+              end
           | ROwn => Ok (dummy bs, upd cs k (set_w h false), set_w h false)
           end
       end
